@@ -144,9 +144,16 @@ def run(ctx):
     replay_selftest(ctx, b, bs)
     # 3. binding B
     for salt in range(1 if q else 4):
-        ctx.validate_recording(b, 'Push_Trace', 'Push_Trace.cfg',
-                               opts=dict(n=12 if q else (15 if salt == 3 else 40), salt=salt, quiet=3 if salt == 3 else 2), dfs=True,
-                               timeout=14400, selftest=(salt == 0))
+        opts = dict(n=12 if q else (15 if salt == 3 else 40), salt=salt, quiet=3 if salt == 3 else 2)
+        try:
+            ctx.validate_recording(b, 'Push_Trace', 'Push_Trace.cfg', opts=opts, dfs=True, timeout=14400, selftest=(salt == 0))
+        except vlib.Broken as e:
+            if 'recorder failed' not in str(e):
+                raise
+            # a harness failure while recording (never a verdict): say so and record once more
+            ctx.notes.append('recorder failed once and was re-run: %s' % str(e)[-300:])
+            vlib.log('[record] failed, one more attempt: %s' % str(e)[-300:])
+            ctx.validate_recording(b, 'Push_Trace', 'Push_Trace.cfg', opts=opts, dfs=True, timeout=14400, selftest=(salt == 0))
 
 
 import vlib  # noqa: E402
